@@ -33,6 +33,8 @@ Cfg(x) ==
     [] Mutant = "ip-servername-dropped" -> IF c.err = "" /\ x.serverName \in {"ipv4", "ipv6"}
                                            THEN [c EXCEPT !.serverName = "none", !.skipVerify = x.insecure] ELSE c
     [] Mutant = "reuse-retunes-session" -> IF c.err = "" THEN [c EXCEPT !.tickets = FALSE, !.cache = TRUE] ELSE c
+    [] Mutant = "empty-pool-is-absent" -> IF c.err = "" /\ x.caPool = "empty" /\ x.caLoaded = "none" /\ x.caFile = "none"
+                                          THEN [c EXCEPT !.system = TRUE] ELSE c
     [] Mutant = "system-mixed-in" -> IF c.err = "" /\ ~c.system /\ x.caPool = "none" THEN [c EXCEPT !.system = TRUE] ELSE c
     [] Mutant = "key-error-swallowed" -> IF c.err \in {"cert", "key"} THEN [Config([x EXCEPT !.certFile = "none", !.certLoaded = "none"]) EXCEPT !.err = ""] ELSE c
     [] Mutant = "loaded-cert-ignored" -> IF x.certFile = "none" THEN Config([x EXCEPT !.certLoaded = "none"]) ELSE c
